@@ -10,6 +10,12 @@
  *             scripted read callback (asks 4096 bytes per read, like examples/decoder_example.c)
  *   api  : f  ov_read_float(length = req schedule)   (path p: vorbis_synthesis_read(min(avail,req)))
  *          i  ov_read(..., length bytes, little endian, 16 bit, signed)          (paths s,n only)
+ *          g  ov_read_filter(same format) with a stateless gain-0.5 filter       (paths s,n only)
+ *          k  ov_read_filter(same format) with an identity filter                (paths s,n only)
+ *             both filters check that their input is exactly the unfiltered reference PCM at their own cursor
+ *             (advanced by the frames they were shown) and count frames; at the end frames shown == frames delivered.
+ *             The delivered bytes are compared with the default-schedule output of the same call (api g: anchor taken
+ *             with a 131072-byte buffer so that a whole block always fits; tied to 0.5*reference within one LSB).
  *   req  : c<k> constant k | a<x>,<y> alternating x,y | r<k> ramp 1,2..k..2,1,2.. |
  *          (api i) b<bytes> | F<k> = k frames of the widest link of the file
  *   cap  : uniform cap of every read callback answer (0 = none)
@@ -70,7 +76,7 @@ static long rs_next(rsched *r){
 }
 
 /* ------------------------------------------------------------------ reference tables */
-typedef struct { int ch; long rate; long n; long cap; float **pcm; short *ipcm; long in; long icap; } rlink;
+typedef struct { int ch; long rate; long n; long cap; float **pcm; short *ipcm; long in; long icap; short *gpcm; long gn; long gcap; } rlink;
 typedef struct {
   char id[32]; char path[500]; unsigned char *data; long len;
   int tn; int tch[MAXL]; long trate[MAXL],tcount[MAXL];     /* construction truth */
@@ -81,16 +87,18 @@ static rfile g_f[MAXF]; static int g_nf=0;
 /* ------------------------------------------------------------------ output cursor / comparator */
 typedef struct {
   rfile *rf; int build;        /* build=1: append into rf (reference construction) */
-  int ints;                    /* integer stream */
+  int ints;                    /* 0 float, 1 integer stream (ov_read / identity filter), 2 integer stream after the gain filter */
   int cur; long idx; long total;
   char res[200];               /* first problem found ("" = none) */
   int nneg; long negcode[MAXNEG]; int neglink[MAXNEG]; long negidx[MAXNEG];
   long calls;
 } outst;
+#define L_IN(l,m) ((m)==2?(l)->gn:(l)->in)
+#define L_IP(l,m) ((m)==2?(l)->gpcm:(l)->ipcm)
 static void o_init(outst *o,rfile *rf,int build,int ints){ memset(o,0,sizeof(*o)); o->rf=rf; o->build=build; o->ints=ints; }
 static void o_neg(outst *o,long code){
   int k=o->cur; long ix=o->idx;
-  if(!o->build&&k<o->rf->nl){ long n=o->ints?o->rf->L[k].in:o->rf->L[k].n; if(ix>=n&&k+1<o->rf->nl){ k++; ix=0; } }
+  if(!o->build&&k<o->rf->nl){ long n=o->ints?L_IN(&o->rf->L[k],o->ints):o->rf->L[k].n; if(ix>=n&&k+1<o->rf->nl){ k++; ix=0; } }
   if(o->nneg<MAXNEG){ o->negcode[o->nneg]=code; o->neglink[o->nneg]=k; o->negidx[o->nneg]=ix; }
   o->nneg++;
 }
@@ -112,6 +120,11 @@ static int o_pcm(outst *o,float **pcm,short *ip,long n,int ch,long rate){
       if(o->cur>=rf->nl){ if(!o->res[0])strcpy(o->res,"int_ref_extra_audio"); return -1; }
       l=&rf->L[o->cur];
       if(ch!=l->ch){ if(!o->res[0])strcpy(o->res,"int_ref_channels"); return -1; }
+      if(o->ints==2){
+        if(l->gn+n>l->gcap){ l->gcap=(l->gn+n)*2+1024; l->gpcm=(short*)__real_realloc(l->gpcm,sizeof(short)*l->gcap*ch); }
+        memcpy(l->gpcm+l->gn*ch,ip,sizeof(short)*n*ch); l->gn+=n; o->idx+=n; o->total+=n;
+        return o->cur;
+      }
       if(l->in+n>l->icap){ l->icap=(l->in+n)*2+1024; l->ipcm=(short*)__real_realloc(l->ipcm,sizeof(short)*l->icap*ch); }
       memcpy(l->ipcm+l->in*ch,ip,sizeof(short)*n*ch); l->in+=n; o->idx+=n; o->total+=n;
       return o->cur;
@@ -125,17 +138,17 @@ static int o_pcm(outst *o,float **pcm,short *ip,long n,int ch,long rate){
     return rf->nl-1;
   }
   if(o->res[0])return -1;
-  while(o->cur<rf->nl&&o->idx>=(o->ints?rf->L[o->cur].in:rf->L[o->cur].n)){ o->cur++; o->idx=0; }
+  while(o->cur<rf->nl&&o->idx>=(o->ints?L_IN(&rf->L[o->cur],o->ints):rf->L[o->cur].n)){ o->cur++; o->idx=0; }
   if(o->cur>=rf->nl){ snprintf(o->res,sizeof(o->res),"extra_audio:%ld",n); return -1; }
   {
-    rlink *l=&rf->L[o->cur]; long ln=o->ints?l->in:l->n;
+    rlink *l=&rf->L[o->cur]; long ln=o->ints?L_IN(l,o->ints):l->n; short *lip=L_IP(l,o->ints);
     if(ch!=l->ch){ snprintf(o->res,sizeof(o->res),"channels:link%d:%d!=%d:idx%ld",o->cur,ch,l->ch,o->idx); return -1; }
     if(rate!=l->rate){ snprintf(o->res,sizeof(o->res),"rate:link%d:%ld!=%ld",o->cur,rate,l->rate); return -1; }
     if(o->idx+n>ln){ snprintf(o->res,sizeof(o->res),"overrun:link%d:%ld+%ld>%ld",o->cur,o->idx,n,ln); return -1; }
     if(o->ints){
-      if(memcmp(ip,l->ipcm+o->idx*ch,sizeof(short)*n*ch)){
-        long j; for(j=0;j<n*ch;j++)if(ip[j]!=l->ipcm[o->idx*ch+j])break;
-        snprintf(o->res,sizeof(o->res),"ipcm:link%d:idx%ld:ch%ld",o->cur,o->idx+j/ch,j%ch); return -1; }
+      if(memcmp(ip,lip+o->idx*ch,sizeof(short)*n*ch)){
+        long j; for(j=0;j<n*ch;j++)if(ip[j]!=lip[o->idx*ch+j])break;
+        snprintf(o->res,sizeof(o->res),"%s:link%d:idx%ld:ch%ld",o->ints==2?"gain_ipcm":"ipcm",o->cur,o->idx+j/ch,j%ch); return -1; }
     }else{
       for(c=0;c<ch;c++)if(memcmp(pcm[c],l->pcm[c]+o->idx,sizeof(float)*n)){
         long j; for(j=0;j<n;j++)if(memcmp(&pcm[c][j],&l->pcm[c][o->idx+j],sizeof(float)))break;
@@ -148,7 +161,7 @@ static int o_pcm(outst *o,float **pcm,short *ip,long n,int ch,long rate){
 static void o_finish(outst *o){
   rfile *rf=o->rf; long want=0; int k;
   if(o->build||o->res[0])return;
-  for(k=0;k<rf->nl;k++)want+=o->ints?rf->L[k].in:rf->L[k].n;
+  for(k=0;k<rf->nl;k++)want+=o->ints?L_IN(&rf->L[k],o->ints):rf->L[k].n;
   if(o->total!=want)snprintf(o->res,sizeof(o->res),"count:%ld!=%ld:stopped_link%d:idx%ld",o->total,want,o->cur,o->idx);
 }
 
@@ -210,9 +223,34 @@ static void pk_run(dsrc *d,rsched *rq,outst *o,long ask){
   ogg_sync_clear(&oy);
 }
 
+/* ------------------------------------------------------------------ ov_read_filter callbacks */
+typedef struct { rfile *rf; int gain; int cur; long idx; long seen; long calls; char err[120]; } fstate;
+static void c10_filter(float **pcm,long channels,long samples,void *param){
+  fstate *f=(fstate*)param; rfile *rf=f->rf; long c,j;
+  f->calls++;
+  if(!f->err[0]){
+    while(f->cur<rf->nl&&f->idx>=rf->L[f->cur].n){ f->cur++; f->idx=0; }
+    if(samples<=0)snprintf(f->err,sizeof(f->err),"filter_samples:%ld",samples);
+    else if(f->cur>=rf->nl)snprintf(f->err,sizeof(f->err),"filter_extra:%ld",samples);
+    else if(channels!=rf->L[f->cur].ch)snprintf(f->err,sizeof(f->err),"filter_channels:link%d:%ld",f->cur,channels);
+    else if(f->idx+samples>rf->L[f->cur].n)snprintf(f->err,sizeof(f->err),"filter_overrun:link%d:%ld+%ld",f->cur,f->idx,samples);
+    else{
+      /* the filter must be shown unfiltered decoder output, each frame once */
+      for(c=0;c<channels&&!f->err[0];c++)if(memcmp(pcm[c],rf->L[f->cur].pcm[c]+f->idx,sizeof(float)*samples)){
+        for(j=0;j<samples;j++)if(memcmp(&pcm[c][j],&rf->L[f->cur].pcm[c][f->idx+j],sizeof(float)))break;
+        snprintf(f->err,sizeof(f->err),"filter_input:link%d:idx%ld:ch%ld",f->cur,f->idx+j,c);
+      }
+      f->idx+=samples;
+    }
+  }
+  f->seen+=samples;
+  if(f->gain)for(c=0;c<channels;c++)for(j=0;j<samples;j++)pcm[c][j]*=0.5f;
+}
+
 /* ------------------------------------------------------------------ access paths s / n: vorbisfile */
-static void vf_run(dsrc *d,int streaming,int ints,rsched *rq,outst *o){
-  OggVorbis_File vf; ov_callbacks cb; int rc; long guard=0; int lastbs=-2,lastlk=-1;
+static void vf_run(dsrc *d,int streaming,int ints,int filt,rsched *rq,outst *o){
+  OggVorbis_File vf; ov_callbacks cb; int rc; long guard=0; int lastbs=-2,lastlk=-1; fstate fs;
+  memset(&fs,0,sizeof(fs)); fs.rf=o->rf; fs.gain=(filt==2);
   static short ibuf[65536];
   cb.read_func=d_read; cb.seek_func=streaming?NULL:mio_seek; cb.close_func=mio_close; cb.tell_func=streaming?NULL:mio_tell;
   rc=ov_open_callbacks(d,&vf,NULL,0,cb);
@@ -231,7 +269,8 @@ static void vf_run(dsrc *d,int streaming,int ints,rsched *rq,outst *o){
     o->calls++;
     if(ints){
       if(req>(long)sizeof(ibuf))req=sizeof(ibuf);
-      n=ov_read(&vf,(char*)ibuf,(int)req,0,2,1,&bs);
+      if(filt)n=ov_read_filter(&vf,(char*)ibuf,(int)req,0,2,1,&bs,c10_filter,&fs);
+      else n=ov_read(&vf,(char*)ibuf,(int)req,0,2,1,&bs);
     }else{
       float **pcm=NULL;
       n=ov_read_float(&vf,&pcm,(int)req,&bs);
@@ -260,6 +299,10 @@ static void vf_run(dsrc *d,int streaming,int ints,rsched *rq,outst *o){
     }
     lastbs=bs; lastlk=lk;
   }
+  if(filt&&!o->res[0]){
+    if(fs.err[0])snprintf(o->res,sizeof(o->res),"%s",fs.err);
+    else if(fs.seen!=o->total)snprintf(o->res,sizeof(o->res),"filter_frames:seen%ld!=delivered%ld",fs.seen,o->total);
+  }
   ov_clear(&vf);
 }
 
@@ -271,6 +314,7 @@ static void hash_ref(rfile *rf){
     h_i64(&h,l->ch); h_i64(&h,l->rate); h_i64(&h,l->n);
     for(c=0;c<l->ch&&l->n>0;c++)h_bytes(&h,l->pcm[c],sizeof(float)*l->n);
     h_i64(&hi,l->ch); h_i64(&hi,l->in); if(l->in>0)h_bytes(&hi,l->ipcm,sizeof(short)*l->in*l->ch);
+    h_i64(&hi,l->gn); if(l->gn>0)h_bytes(&hi,l->gpcm,sizeof(short)*l->gn*l->ch);
   }
   h_hex(&h,rf->rh); h_hex(&hi,rf->rih);
 }
@@ -292,7 +336,7 @@ static void build_ref(rfile *rf){
   }
   /* integer reference: default schedule through vorbisfile (seekable, full reads, 4096 bytes) */
   d_init(&d,rf->data,rf->len,0,NULL,0); rs_parse(&rq,"c4096",1); o_init(&o,rf,1,1);
-  vf_run(&d,0,1,&rq,&o);
+  vf_run(&d,0,1,0,&rq,&o);
   if(o.res[0]||o.nneg){ snprintf(rf->referr,sizeof(rf->referr),"int_ref_failed:%s:neg%d",o.res,o.nneg); return; }
   for(k=0;k<rf->nl;k++){
     rlink *l=&rf->L[k]; long j; int c;
@@ -301,6 +345,19 @@ static void build_ref(rfile *rf){
     for(j=0;j<l->n;j++)for(c=0;c<l->ch;c++){
       double f=l->pcm[c][j]*32768.0,s=l->ipcm[j*l->ch+c]; if(f>32767)f=32767; if(f<-32768)f=-32768;
       if(s-f>1.0||f-s>1.0){ snprintf(rf->referr,sizeof(rf->referr),"int_ref_insane:link%d:idx%ld",k,j); return; }
+    }
+  }
+  /* gain anchor: ov_read_filter(gain 0.5) with a buffer that always takes the whole pending block */
+  d_init(&d,rf->data,rf->len,0,NULL,0); rs_parse(&rq,"c131072",1); o_init(&o,rf,1,2);
+  vf_run(&d,0,1,2,&rq,&o);
+  if(o.res[0]||o.nneg){ snprintf(rf->referr,sizeof(rf->referr),"gain_ref_failed:%s:neg%d",o.res,o.nneg); return; }
+  for(k=0;k<rf->nl;k++){
+    rlink *l=&rf->L[k]; long j; int c;
+    if(l->gn!=l->n){ snprintf(rf->referr,sizeof(rf->referr),"gain_ref_count:link%d:%ld!=%ld",k,l->gn,l->n); return; }
+    /* the gain was applied exactly once: within one LSB of 0.5*reference (exact packing is C17's business) */
+    for(j=0;j<l->n;j++)for(c=0;c<l->ch;c++){
+      double f=0.5*l->pcm[c][j]*32768.0,s=l->gpcm[j*l->ch+c]; if(f>32767)f=32767; if(f<-32768)f=-32768;
+      if(s-f>1.0||f-s>1.0){ snprintf(rf->referr,sizeof(rf->referr),"gain_ref_not_half:link%d:idx%ld",k,j); return; }
     }
   }
   rf->have_int=1;
@@ -313,10 +370,10 @@ static void run_one(rfile *rf,char path,char api,const char *req,long cap,const 
   dsrc d; rsched rq; outst o; int i; char *p;
   memset(r,0,sizeof(*r));
   if(rf->referr[0]){ snprintf(r->status,sizeof(r->status),"bad:%s",rf->referr); strcpy(r->neg,"neg=0"); return; }
-  if(!rs_parse(&rq,req,rf->maxch)||(path=='p'&&api!='f')||(api!='f'&&api!='i')||(path!='s'&&path!='n'&&path!='p')){ strcpy(r->status,"BADCASE"); strcpy(r->neg,"neg=0"); return; }
+  if(!rs_parse(&rq,req,rf->maxch)||(path=='p'&&api!='f')||(api!='f'&&api!='i'&&api!='g'&&api!='k')||(path!='s'&&path!='n'&&path!='p')){ strcpy(r->status,"BADCASE"); strcpy(r->neg,"neg=0"); return; }
   d_init(&d,rf->data,rf->len,cap,cut,ncut);
-  o_init(&o,rf,0,api=='i');
-  if(path=='p')pk_run(&d,&rq,&o,4096); else vf_run(&d,path=='n',api=='i',&rq,&o);
+  o_init(&o,rf,0,api=='f'?0:api=='g'?2:1);
+  if(path=='p')pk_run(&d,&rq,&o,4096); else vf_run(&d,path=='n',api!='f',api=='g'?2:api=='k'?1:0,&rq,&o);
   o_finish(&o);
   if(o.res[0])snprintf(r->status,sizeof(r->status),"bad:%s",o.res);
   else if(o.nneg)strcpy(r->status,"bad:neg");
